@@ -815,7 +815,7 @@ func main() {
 			budget := 50 * time.Second
 			length, preempt, nOps := 2, 2, 4
 			if tier == "thorough" {
-				budget = 10 * time.Minute
+				budget = 25 * time.Minute
 				length, preempt, nOps = 3, 3, len(nameOps)
 			}
 			return []mc.Family{historiesFamily(length, budget), lazyInitFamily(preempt, nOps, budget), overlapFamily(preempt, tier == "thorough", budget), coldFamily(budget), raceFamily()}
